@@ -1072,14 +1072,18 @@ fn zoo_base() -> (Vec<(String, String)>, Vec<usize>, Vec<&'static str>) {
 }
 
 /// per-site sweep: the identifier at ONE use site is replaced by every name in turn
-pub fn zoo_case(id: String, site: usize, all_names: bool) -> Case {
+pub fn zoo_case(id: String, site: usize, all_names: bool, rot: usize) -> Case {
     let (files, lines, defaults) = zoo_base();
     let line = lines[site] as u32;
     let tpl = ZOO_SITES[site].1;
     let mut edits = vec![];
     let mut cur_len = tpl.replace('@', defaults[site]).encode_utf16().count() as u32;
     let names: &[&str] = if all_names { ZOO_NAMES } else { ZOO_CORE };
-    for name in names.iter() {
+    for (k, name) in names.iter().enumerate() {
+        // quick: every site sees half of the one-per-kind names per run (the region batches see every name every run)
+        if !all_names && (k + site + rot) % 2 != 0 {
+            continue;
+        }
         let new = tpl.replace('@', name);
         edits.push(Edit { file: "uses.vhd".into(), range: Some([line, 0, line, cur_len]), text: new.clone(), kind: "kind-confusion".into() });
         cur_len = new.encode_utf16().count() as u32;
@@ -1105,7 +1109,7 @@ pub fn zoo_batch_case(id: String, region: &str) -> Case {
 /// mode 1 = every name at every site, 2 = one name per kind at every site; the region batches always
 pub fn zoo_cases(seed: u64, mode: usize) -> Vec<Case> {
     let mut v: Vec<Case> = ["d", "c", "s", "l"].iter().map(|r| zoo_batch_case(format!("kb{seed}-{r}"), r)).collect();
-    v.extend((0..ZOO_SITES.len()).map(|s| zoo_case(format!("k{seed}-{s}"), s, mode == 1)));
+    v.extend((0..ZOO_SITES.len()).map(|s| zoo_case(format!("k{seed}-{s}"), s, mode == 1, seed as usize)));
     v
 }
 
@@ -1319,12 +1323,30 @@ pub fn lit_case(id: String, site: usize, stride: usize, offset: usize) -> Case {
     Case { id, family: "lits".into(), std_mode: "std".into(), libs: vec![("lib".to_string(), vec!["lits.vhd".into()])], files: vec![("lits.vhd".to_string(), text)], edits, cursors: vec![] }
 }
 
-/// batch: all sites of one region get the same literal at once, for every literal
-pub fn lit_batch_case(id: String, region: &str) -> Case {
+/// the literals every quick run uses: everything but the bulk of the bit-string product (of which one value per base
+/// specifier and length prefix stays)
+fn lit_is_core(lit: &str) -> bool {
+    let digits = lit.chars().take_while(|c| c.is_ascii_digit()).count();
+    let rest = &lit[digits..];
+    let letters = rest.chars().take_while(|c| c.is_ascii_alphabetic()).count();
+    let is_bit_string = (1..=2).contains(&letters) && rest[letters..].starts_with('"') && rest.ends_with('"') && !rest[letters..].contains(' ');
+    if !is_bit_string {
+        return true;
+    }
+    let val = &rest[letters + 1..rest.len() - 1];
+    (val == "F" || val == "1") && lit[..digits].len() <= 2
+}
+
+/// batch: all sites of one region get the same literal at once, for every literal (quick: the core literals and a
+/// seed-rotated third of the others)
+pub fn lit_batch_case(id: String, region: &str, quick: bool, seed: u64) -> Case {
     let defaults = lit_defaults();
     let (text, _) = lit_file(&defaults);
     let mut edits = vec![];
-    for lit in literals().iter() {
+    for (k, lit) in literals().iter().enumerate() {
+        if quick && !lit_is_core(lit) && (k as u64 + seed) % 3 != 0 {
+            continue;
+        }
         let vals: Vec<String> = LIT_SITES.iter().enumerate().map(|(i, s)| if s.0 == region { lit.clone() } else { defaults[i].clone() }).collect();
         let (t, _) = lit_file(&vals);
         edits.push(Edit { file: "lits.vhd".into(), range: None, text: t, kind: "literal-batch".into() });
@@ -1334,7 +1356,7 @@ pub fn lit_batch_case(id: String, region: &str) -> Case {
 }
 
 pub fn lit_cases(seed: u64, stride: usize) -> Vec<Case> {
-    let mut v: Vec<Case> = ["d", "c", "s"].iter().map(|r| lit_batch_case(format!("lb{seed}-{r}"), r)).collect();
+    let mut v: Vec<Case> = ["d", "c", "s"].iter().map(|r| lit_batch_case(format!("lb{seed}-{r}"), r, stride > 2, seed)).collect();
     v.extend((0..LIT_SITES.len()).map(|s| lit_case(format!("l{seed}-{s}"), s, stride, (seed as usize).wrapping_mul(7).wrapping_add(s * 5))));
     v
 }
